@@ -91,7 +91,7 @@ class Listener:
 # ------------------------------------------------------------------------------------------ C15
 
 TARGETS15 = [{"path": "a"}, {"path": "b"}, {"path": "c", "uses": ["a", "b"]}]
-FATES = ["never", "before_run", "after_connect", "mid_output", "between_groups", "after_last_burst"]
+FATES = ["never", "before_run", "during_handshake", "after_connect", "mid_output", "between_groups", "after_last_burst"]
 
 
 def c15_run(desc):
@@ -108,8 +108,16 @@ def c15_run(desc):
                 lis = Listener(c, r, s, desc["listener"])
                 if fate == "before_run":
                     lis.kill(sig)
+            if lis is not None and fate == "during_handshake":
+                # the listener is suspended: the run's connection is accepted by the kernel but the
+                # filter line never comes; then the listener is killed while the run is waiting for it
+                os.kill(lis.p.p.pid, signal.SIGSTOP)
             p = c.spawn("run", [common.MONORAIL, "run", "-c", "build", "-t", "a", "b", "c", "--deps"], r.dir, s.env(c.env()))
             killed = fate == "before_run"
+            if lis is not None and fate == "during_handshake":
+                c.wait(lambda: len(c.waiting()) > 0 or p.done(), 1.0)   # nobody arrives while the handshake hangs
+                lis.kill(signal.SIGKILL)
+                killed = True
 
             def kill_now():
                 nonlocal killed
